@@ -1719,7 +1719,9 @@ def c16_cli(ctx, res):
     raw_endings = [b"echo 5\xa3", b"break\xa0list", b"\x80", b"\xc0\x80", b"echo caf\xe9", b"\xff\xfe", b"step\n\xbf\n", b"echo \xed\xa0\x80",
                    b"\xf8\x88\x80\x80\x80", b"echo ok\n\x93done\x94"]
     prefixes = ["", "step\n", "continue\n", "break add ^1\ncontinue\n", "assembly x0000\nassembly x2fff\nprint x0\n",
-                "break add ^2\nbreak add ^0\nbreak add ^1\nbreak add ^1\nbreak list\n", "assembly\nassembly xFFFF\ncontinue\nassembly\n"]
+                "break add ^2\nbreak add ^0\nbreak add ^1\nbreak add ^1\nbreak list\n", "assembly\nassembly xFFFF\ncontinue\nassembly\n",
+                # a script that begins with a separator (an empty first command)
+                ";", "\n", ";;\n", " ;", "\n\n;"]
     jobs = []
     for pn in progs:
         for ei, end in enumerate(endings):
@@ -1730,6 +1732,13 @@ def c16_cli(ctx, res):
                         continue
                     jobs.append((pn, pre + end + ("\n" if final_nl else ""), via))
 
+    # the decorated output mode (tables, colours, hints) has code of its own for most commands: the same kinds of
+    # session without --minimal
+    for pn in ("halts.asm", "to_ffff.asm", "runs_off.asm"):
+        for cmd in ("break add ^1;break list;continue", "break list", "break add ^0;break add ^2;break add ^1;break list;break remove ^1;break list;continue",
+                    "registers;print r0;assembly;assembly ^1;help;continue", "step;registers;step into 2;break list;goto m;print nowhere;continue", ";break list"):
+            for via in ("stdin-decorated", "arg-decorated"):
+                jobs.append((pn, cmd.replace(";", "\n") + "\n" if via.startswith("stdin") else cmd, via))
     # commands that name a label, on programs that define none (and on one that does): looked up, not found, on to the next
     _write(os.path.join(d, "no_labels.asm"), "add r0 r0 #1\nadd r0 r0 #1\nhalt\n")
     progs["no_labels.asm"] = "add r0 r0 #1\nadd r0 r0 #1\nhalt\n"
@@ -1764,7 +1773,9 @@ def c16_cli(ctx, res):
         args = [exe, "debug", pn, "--minimal"]
         data = b""
         dirfd = None
-        if via == "arg":
+        if via.endswith("-decorated"):
+            args = [exe, "debug", pn]
+        if via.startswith("arg"):
             args += ["--command", script.replace("\n", ";").replace("\x00", "")]
         elif via == "stdin-is-a-directory":
             if script:
@@ -1820,7 +1831,8 @@ def c16_cli(ctx, res):
     c16_input_traps(ctx, res, d)
     res.require(["l2:session_through_real_reader:stdin", "l2:session_through_real_reader:arg", "l2:script_without_final_newline",
                  "l2:session_terminated", "l2:input_trap_under_debugger:arg", "l2:input_trap_under_debugger:stdin", "l2:program:halts", "l2:program:runs_off", "l2:program:jumps_low", "l2:program:to_ffff",
-                 "l2:program:prints_esc", "l2:script_not_utf8", "l2:program:puts_at_ffff", "l2:program:fresh_cc", "l2:program:no_labels", "l2:session_through_real_reader:stdin-is-a-directory"], "L2")
+                 "l2:program:prints_esc", "l2:script_not_utf8", "l2:program:puts_at_ffff", "l2:program:fresh_cc", "l2:program:no_labels", "l2:session_through_real_reader:stdin-is-a-directory",
+                 "l2:session_through_real_reader:arg-decorated", "l2:session_through_real_reader:stdin-decorated"], "L2")
 
 
 def _blocked_on_itself(pid):
